@@ -299,7 +299,8 @@ Definition cbe_encode_event (st : enc_state) (e : event) : option (enc_state * b
       guard (bytes_wfb mt)
             (Some ({| es_array_type := cbeAT_Media; es_try_small := false |}, enc_media_begin mt))
   | ECustomBegin t ct =>
-      guard ((t <? 256) && is_u64 ct)
+      (* custom text is refused here as in OnCustomText *)
+      guard ((t <? 256) && negb (t =? cbeAT_CustomText) && is_u64 ct)
             (Some ({| es_array_type := cbeAT_CustomBinary; es_try_small := false |}, enc_custom_begin ct))
   | EArrayChunk n more =>
       let st' := {| es_array_type := es_array_type st; es_try_small := false |} in
